@@ -243,6 +243,10 @@ def judge(case, part):
                 cid = interface.Cid()
                 cid.read("cid", cid_rows)
                 fields_of_cids.append(cid.field_formats[0])
+            # fixed data: the blanks that pad a cell are characters of the data item like any other
+            cid = interface.Cid()
+            cid.read("cid", [["D", "Format", "Fixed"], ["D", "Allowed characters", text], ["F", "x", "", "", "3"]])
+            fixed_field = cid.field_formats[0]
         except Exception as error:
             part.fail(tag % ("allowed-characters-declare-raised-" + type(error).__name__), shown, "accepted", repr(error))
             return
@@ -265,6 +269,23 @@ def judge(case, part):
                     continue
                 if observed != expected:
                     part.fail(tag % ("allowed-characters:" + ("accepted-outside" if observed else "rejected-inside")), dict(shown, probes=[value]), expected, [cell, observed])
+        for value in probes:
+            if not isinstance(value, int) or not 1 <= value <= 0x2100 or chr(value).isspace():
+                continue
+            for cell in (chr(value) + "  ", " " + chr(value) + " ", chr(value) * 3):
+                expected = intervals.accepts(model_items, value) and (" " not in cell or intervals.accepts(model_items, 32))
+                part.transitions += 1
+                part.validated += 1
+                try:
+                    fixed_field.validated(cell)
+                    observed = True
+                except errors.FieldValueError:
+                    observed = False
+                except Exception as error:
+                    part.fail(tag % ("allowed-characters-fixed-raised-" + type(error).__name__), dict(shown, probes=[value]), expected, repr(error))
+                    continue
+                if observed != expected:
+                    part.fail(tag % ("allowed-characters-fixed:" + ("accepted-outside" if observed else "rejected-inside")), dict(shown, probes=[value]), expected, [cell, observed])
 
 
 # ---- enumeration ---------------------------------------------------------------------------
